@@ -197,6 +197,30 @@ func (fr *Frame) rangeCall(kind string, callee *ssa.Function, x *ssa.Call, c *ss
 	if a := args[0]; a.A != nil && a.A.Kind == 0 && len(a.A.Sels) == 0 {
 		fr.nilCheck(a.A, c.Pos(), "range call receiver")
 	}
+	// lib.Map.Range holds the map's read lock while the callback runs (RangeLock: the write lock)
+	var mapMu string
+	lockKind := ""
+	if kind == "libmap" {
+		recv := callee.Signature.Recv().Type().Underlying().(*types.Pointer).Elem()
+		if st, ok := recv.Underlying().(*types.Struct); ok {
+			for i := 0; i < st.NumFields(); i++ {
+				if isLockType(st.Field(i).Type()) && st.Field(i).Type().String() != "sync.Map" {
+					a := args[0].A
+					if a == nil {
+						a = &Addr{Base: args[0].T, T: recv}
+					}
+					mapMu = g.ptrTerm(a.extend(Sel{Field: i, StructT: recv}))
+					lockKind = "RLock"
+					if strings.HasSuffix(calleeKey(callee), ").RangeLock") {
+						lockKind = "Lock"
+					}
+				}
+			}
+		}
+		if mapMu != "" {
+			h = fr.lockOp(lockKind, mapMu, h)
+		}
+	}
 	dom := fr.rangeDomain(kind, callee, args, h)
 	ks := g.sortOf(dom.keyT)
 	seenSort := "(Array " + ks + " Bool)"
@@ -228,6 +252,10 @@ func (fr *Frame) rangeCall(kind string, callee *ssa.Function, x *ssa.Call, c *ss
 	for k, cl := range invs {
 		fr.oblig("invariant", "", label(k, cl)+".establish", evalInv(cl, h, seen0), cl.Src, c.Pos())
 	}
+	// the frame so far is an implicit invariant of the iteration (as for loops)
+	if fr.frameActive() {
+		fr.frameOblig("on range entry", h, c.Pos())
+	}
 	// havoc what the closure body may write
 	names, all := fr.bodyModNames(fn, fr.depth)
 	var hL Heap
@@ -236,7 +264,23 @@ func (fr *Frame) rangeCall(kind string, callee *ssa.Function, x *ssa.Call, c *ss
 	} else {
 		hL = fr.havocNames(h, names)
 	}
+	if mapMu != "" {
+		// the map's lock is held at the head of every iteration, whatever the body did in between
+		k := "R"
+		if lockKind == "Lock" {
+			k = "W"
+		}
+		n, s := g.lockArr(k)
+		hL = hL.clone()
+		hL[n] = g.define(n, s, fmt.Sprintf("(store %s %s true)", g.heapArr(hL, n, s), mapMu))
+	}
 	seenL := g.fresh(fr.prefix+"rseen", seenSort)
+	if fr.frameActive() {
+		_, ffs := fr.frameFormulas(hL)
+		for _, f := range ffs {
+			fr.assume(f, "frame so far (implicit invariant of the range call)")
+		}
+	}
 	for _, cl := range invs {
 		fr.assume(evalInv(cl, hL, seenL), "range invariant "+cl.Src)
 	}
@@ -275,6 +319,9 @@ func (fr *Frame) rangeCall(kind string, callee *ssa.Function, x *ssa.Call, c *ss
 		for i, cl := range invs {
 			fr.oblig("invariant", "", label(i, cl)+".preserve", evalInv(cl, hB, seenB), cl.Src, c.Pos())
 		}
+		if fr.frameActive() {
+			fr.frameOblig("after one range step", hB, c.Pos())
+		}
 	}
 	fr.curGuard = savedGuard
 	// exit
@@ -286,5 +333,12 @@ func (fr *Frame) rangeCall(kind string, callee *ssa.Function, x *ssa.Call, c *ss
 		fr.assume(implies(not(early), allSeen), "range call visited every present key unless the callback stopped it")
 	}
 	g.rangeCalls++
+	if mapMu != "" {
+		un := "RUnlock"
+		if lockKind == "Lock" {
+			un = "Unlock"
+		}
+		hL = fr.lockOp(un, mapMu, hL)
+	}
 	return hL, true
 }
